@@ -254,9 +254,9 @@ func main() {
 		ctx.Finish()
 		return
 	}
-	nFull, nStaged, perFile := 260, 120, 25
+	nFull, nStaged, perFile := 200, 84, 19
 	if ctx.Thorough() {
-		nFull, nStaged, perFile = 9000, 3000, 800
+		nFull, nStaged, perFile = 6000, 1500, 480
 	}
 	if ctx.Search {
 		nFull, nStaged = nFull*3, nStaged*2
